@@ -62,34 +62,35 @@ def run(ctx):
                 got.add("?" + show(strip_sites(st), 3))
         ctx.ob("E1.salt-route", fk, got == {pinned["salts"][salt_key]}, "hash_to_scalar salt(s) in %s = %s (pinned %r)" % (fk, sorted(got), pinned["salts"][salt_key]), where=where(f))
     # constructions
-    K.check_keygen(ctx, P, rule="E5.keygen")
+    K.check_keygen(_Sub(ctx, ("E5.keygen.hash", "E5.keygen.salt", "E5.keygen.ikm", "E5.keygen.info", "E5.keygen.len", "E5.keygen.prk", "E5.keygen.okm", "E5.keygen.ret", "E5.keygen.route", "E5.keygen.anchor")), P, rule="E5.keygen")
     PR.check_compute_y(ctx, "E5.challenge", P)
     PR.check_frame_writer(ctx, "E5.frame", P, "BlsSignCrypt::seal", "message", lambda s: s.callee[0] == "BlsSignCrypt::compute_v", "compute_v")
     PR.check_frame_writer(ctx, "E5.frame", P, "BlsTimeCrypt::seal", "message", lambda s: s.callee[0] == "BlsTimeCrypt::compute_w", "compute_w")
-    PR.check_frame_reader(ctx, "E5.frame", P, "BlsSignCrypt::decrypt", "plaintext")
-    PR.check_frame_reader(ctx, "E5.frame", P, "BlsTimeCrypt::unseal", "plaintext")
+    PR.check_frame_reader(ctx, "E5.frame", P, "BlsSignCrypt::decrypt", "plaintext", strict=False)
+    PR.check_frame_reader(ctx, "E5.frame", P, "BlsTimeCrypt::unseal", "plaintext", strict=False)
     PR.check_xof_mask(ctx, "E5.keystream", P, "BlsSignCrypt::compute_v", "uar", "r", "Shake128", True)
     PR.check_xof_mask(ctx, "E5.keystream", P, "BlsTimeCrypt::compute_w", "alpha", "msg", "Shake128", False)
     PR.check_xof_mask(ctx, "E5.keystream", P, "BlsTimeCrypt::compute_v", "k_tick", "alpha_or_v", "Sha256", True)
     # signcryption W input and time-lock sides (from C11 / C13)
     from . import c11, c13
 
-    sub = _Sub(ctx, ("E5.w", "E5.seal", "E3.sides", "E3.signer"))
+    sub = _Sub(ctx, ("E5.w", "E5.seal", "E3.sides"))
     c11.run(sub)
     c13.run(sub)
     # ElGamal transcript + generator (from C14)
     sub = _Sub(ctx, ("E5.transcript", "E3.transcript", "E5.generator", "E1.enc_dst"))
     C14.run(sub)
     # augmentation / PoP framing (shared with C03)
-    K.check_core_table(ctx, P)
+    K.check_core_table(ctx, P, methods=("sign", "partial_sign", "verify", "partial_verify", "pop_prove", "pop_verify", "multi_sig_verify"))
     K.check_hash_to_point_routing(ctx, P)
     # layouts and wire tags
     C.check_layouts(ctx, P)
     C.check_serde_with_pairs(ctx, P, rule="E9.serde")
     check_field_codecs(ctx, P, pinned)
-    C.check_tag_tables(ctx, P)
+    sub2 = _Sub(ctx, ())
+    C.check_tag_tables(sub2, P)
     for adt, tabs in pinned["wire_tags"].items():
-        got = (ctx.extra.get("tag_tables") or {}).get(adt) or {}
+        got = (sub2.extra.get("tag_tables") or {}).get(adt) or {}
         ws = got.get("writers_u8") or []
         if adt == "Bls12381":
             ok = bool(ws) and all(w["map"] == tabs["u8"] for w in ws)
@@ -127,6 +128,9 @@ class _Sub:
 
     def _keep(self, rule):
         return any(rule == r or rule.startswith(r + ".") for r in self._rules)
+
+    def prog(self, *a):
+        return self._ctx.prog(*a)
 
     def ob(self, rule, key, ok, detail="", **kw):
         if self._keep(rule):
